@@ -265,8 +265,12 @@ void rcu_list<T, M, Alloc>::rcu_guard::unlock()
     if (last) {
         while (n) {
             node* deadNode = n->zombie_node;
-            node_alloc_trait::destroy(m_list->m_node_alloc, deadNode);
-            node_alloc_trait::deallocate(m_list->m_node_alloc, deadNode, 1);
+            if (deadNode != nullptr) {
+                node_alloc_trait::destroy(m_list->m_node_alloc, deadNode);
+                node_alloc_trait::deallocate(m_list->m_node_alloc,
+                                             deadNode,
+                                             1);
+            }
 
             zombie_list_node* oldnode = n;
             n = n->next.load();
@@ -463,8 +467,12 @@ rcu_list<T, M, Alloc>::~rcu_list()
         zombie_list_node* current = zn;
         zn = zn->next.load();
 
-        node_alloc_trait::destroy(m_node_alloc, current->zombie_node);
-        node_alloc_trait::deallocate(m_node_alloc, current->zombie_node, 1);
+        if (current->zombie_node != nullptr) {
+            node_alloc_trait::destroy(m_node_alloc, current->zombie_node);
+            node_alloc_trait::deallocate(m_node_alloc,
+                                         current->zombie_node,
+                                         1);
+        }
 
         zombie_alloc_trait::destroy(m_zombie_alloc, current);
         zombie_alloc_trait::deallocate(m_zombie_alloc, current, 1);
